@@ -1,8 +1,11 @@
 #!/bin/bash
-# run every candidate seeded change under /tmp/seed*/_out against its own property's check (sequential: uses /repo)
+# every seeded change under seeded/ against the check of the property it breaks (scratch copies of /repo HEAD, 3 at a time), then meta.json
 cd "$(dirname "$0")/.."
-for d in /tmp/seed*/_out/C*_*; do
-  p=$(basename $d); p=${p%_*}
-  echo "=== $d"
-  python3 tools/try_seeded.py $d $p 2>&1 | tail -2
+args=""
+for d in seeded/*_*; do
+  n=$(basename $d)
+  if [[ $n == C* ]]; then p=${n%_*}; else p=$(grep -o 'C[0-9][0-9]' $d/notes.md | head -1); fi
+  args="$args $d:$p"
 done
+python3 tools/try_seeded_par.py -j ${1:-3} $args
+python3 tools/mk_meta.py
